@@ -140,7 +140,8 @@ def judge_repr(ctx, case, a, A):
         ctx.judge(ok, case, ("C19", "repr", r), "C19:repr", obs.show(A), [r, obs.show(got)])
         if ok:
             # ... and it displays as f displays
-            shown_f, shown_v = obs.observe(str(a)), obs.observe(str(v))
+            from ..model import sgr
+            shown_f, shown_v = sgr.interpret(str(a))[0], sgr.interpret(str(v))[0]
             if shown_f != shown_v:
                 ctx.judge(False, case, ("C19", "repr-display", r), "C19:repr-displays-differently",
                           obs.show(shown_f), [r, obs.show(shown_v)])
